@@ -142,8 +142,6 @@ impl JoinAndGetDepth for Path {
             // In this case, the depth of the join is the depth of `joined` (there is no root
             // sub-path).
             depth
-                .checked_add(1)
-                .expect("overflow determining join depth")
         }
         else {
             depth.saturating_sub(self.components().count())
